@@ -14,9 +14,7 @@ for f in kf:
 log = subprocess.check_output(['git', '-C', '/repo', 'log', '--format=%h %s', '--grep', '^fix:'], text=True).splitlines()
 lock = threading.Lock()
 # repairs whose reverts re-create something no listed property states
-NOT_A_PROPERTY = {
-    '219b1de': 'not applicable: the revert re-creates a lock-order inversion (possible deadlock) that an earlier repair had introduced; no listed property states deadlock freedom, no check reports it',
-}
+NOT_A_PROPERTY = {}
 def one(line):
     h, subj = line.split(' ', 1)
     prop = prop_of.get(h[:7])
